@@ -258,8 +258,9 @@ def run(ctx, rep):
         # the size is the byte count of this frame's counter
         cnt = [s for bl in fb.blocks for s in bl["s"] for o in rv_operands(s["rv"]) if op_place(o) and place_fields(op_place(o))[-1:] == ["count"]]
         rep.check("C09.minmax", "frame size is the per-frame byte counter", len(cnt) >= 1, loc_of(fb))
-    from rules import iolib
+    from rules import iolib, C15
     iolib.count_rules(ctx, rep, "C09")
+    C15.declared_total_rules(F, rep, "C09")
     from rules import castlib
     rep.floor("C09.cast", "narrowing casts inspected", castlib.cast_audit(ctx, rep, "C09", ['encode.rs', 'lib.rs']), 10)
 
